@@ -58,3 +58,70 @@ def rename_locals(src: str, suffix: str = "_q") -> str:
             if isinstance(n, ast.Name) and n.id in targets:
                 n.id = n.id + suffix
     return ast.unparse(tree) + "\n"
+
+
+# ---- further whole-package behaviour-preserving transformations ------------------------------------------------------------------------------
+_PURE = (ast.Name, ast.Attribute, ast.Constant)
+
+
+def _pure(e) -> bool:
+    """Side-effect-free operand whose evaluation order does not matter: names, attribute chains on names, constants, len(<pure>)."""
+    if isinstance(e, ast.Constant):
+        return True
+    if isinstance(e, ast.Name):
+        return True
+    if isinstance(e, ast.Attribute):
+        return _pure(e.value)
+    if isinstance(e, ast.Call) and isinstance(e.func, ast.Name) and e.func.id == "len" and len(e.args) == 1 and not e.keywords:
+        return _pure(e.args[0])
+    if isinstance(e, ast.BinOp) and isinstance(e.op, (ast.Add, ast.Sub)):
+        return _pure(e.left) and _pure(e.right)
+    return False
+
+
+_FLIP = {ast.Lt: ast.Gt, ast.Gt: ast.Lt, ast.LtE: ast.GtE, ast.GtE: ast.LtE, ast.Eq: ast.Eq, ast.NotEq: ast.NotEq}
+
+
+def flip_compares(src: str) -> str:
+    """`a < b` -> `b > a`, `a == b` -> `b == a`, ... for single comparisons of side-effect-free operands (not `is`/`in`, no chains)."""
+    tree = ast.parse(src)
+    for c in ast.walk(tree):
+        if isinstance(c, ast.Compare) and len(c.ops) == 1 and type(c.ops[0]) in _FLIP and _pure(c.left) and _pure(c.comparators[0]):
+            # keep `x == CONST` readable checks that are matched against enum-like constants? no: flip all, the rules must not care
+            c.left, c.comparators[0] = c.comparators[0], c.left
+            c.ops[0] = _FLIP[type(c.ops[0])]()
+    return ast.unparse(ast.fix_missing_locations(tree)) + "\n"
+
+
+def nest_elif(src: str) -> str:
+    """`if a: A elif b: B else: C`  ->  `if a: A else: (if b: B else: C)` is what the AST already is; this pass goes the other way for the
+    unparse: it wraps every `elif` body into an explicit `else:` block by inserting a `pass`-free no-op-free nested If, i.e. it makes
+    ast.unparse emit `else:\\n    if ...` instead of `elif`."""
+    tree = ast.parse(src)
+
+    class T(ast.NodeTransformer):
+        def visit_If(self, node):
+            self.generic_visit(node)
+            if len(node.orelse) == 1 and isinstance(node.orelse[0], ast.If):
+                # a docstring-like no-op expression statement in front keeps ast.unparse from folding it back into `elif`
+                node.orelse = [ast.Expr(ast.Constant(value=...)), node.orelse[0]]
+            return node
+    return ast.unparse(ast.fix_missing_locations(T().visit(tree))) + "\n"
+
+
+def invert_ifelse(src: str) -> str:
+    """`if not A: X else: Y` -> `if A: Y else: X` (only two-armed ifs whose test is a `not` and whose else arm is not an elif chain)."""
+    tree = ast.parse(src)
+    for i in ast.walk(tree):
+        if isinstance(i, ast.If) and i.orelse and isinstance(i.test, ast.UnaryOp) and isinstance(i.test.op, ast.Not) and not (len(i.orelse) == 1 and isinstance(i.orelse[0], ast.If)):
+            i.test = i.test.operand
+            i.body, i.orelse = i.orelse, i.body
+    return ast.unparse(ast.fix_missing_locations(tree)) + "\n"
+
+
+GENERATED = {
+    "gen:reformat-all": (reformat, "every module round-tripped through ast.unparse (comments dropped, layout / quotes / parentheses normalised)"),
+    "gen:rename-locals-all": (rename_locals, "every renameable local of every function of the package renamed (suffix _q)"),
+    "gen:flip-compares-all": (flip_compares, "every single comparison of side-effect-free operands mirrored (`a < b` -> `b > a`, `a == b` -> `b == a`)"),
+    "gen:invert-ifelse-all": (invert_ifelse, "every two-armed `if not A: X else: Y` turned into `if A: Y else: X`"),
+}
